@@ -14,8 +14,17 @@ B  the Mode "impl" state graph (TLC dump), with both deviations enabled as alter
    of the instance selects the successor edge(s). Only deviation edges match -> finding; no
    edge matches -> the recorded execution is judged by SvsTrace in Mode "open" (so that only
    C18, not sync.py's present choices, can reject it).
-C  random histories (5 nodes, sequence numbers <= 20, ~100 events) recorded from the real
-   instance and judged by SvsTrace: pass 1 deviations off, pass 2 (rejected ones) deviations on.
+C  random histories (5 nodes, ~100 events, sequence numbers within 20 of a base of 0, 250 or 65530)
+   recorded from the real instance and judged by SvsTrace: pass 1 deviations off, pass 2 (rejected
+   ones) deviations on. Each history runs in a process with two more instances: a sibling of another
+   sync group that has state before the instance is created and whose events interleave (instance
+   independence), and a peer of the same group that is fed every sync Interest the instance emits,
+   as it is on the wire (loop-back: the peer must accept it and merge exactly the announced vector).
+
+Besides local_sv / emitted vectors / callback count the projection has the values returned by
+new_data() (Svs!PublishedSeqs) and local_sv as seen inside the callback (Svs!CallbackSaw). The
+group prefix has four components (an empty one, a typed one, one of type 65536); stimuli are
+encoded and emitted vectors decoded by the executor's own TLV code, not by the library's model.
 
 Findings carry the signature of the named deviation that explains them
 (C18/SvsInst/<action>/<property>/<deviation>) or, if none does,
@@ -145,12 +154,21 @@ def stim_key(ev):
     return json.dumps(ev, sort_keys=True)
 
 
-def proj_state(st):
-    return {'local': dict(st['local']), 'out': [dict(v) for v in seq(st['out'])] if st['out'] else [],
-            'missed': st['missed'], 'state': st['state'], 'timer': st['timer'], 'seq': st['selfSeq']}
+def proj_state(st, pre=None):
+    """projection of graph state st; with the state before the step, also Svs!PublishedSeqs / Svs!CallbackSaw"""
+    p = {'local': dict(st['local']), 'out': [dict(v) for v in seq(st['out'])] if st['out'] else [],
+         'missed': st['missed'], 'state': st['state'], 'timer': st['timer'], 'seq': st['selfSeq'],
+         'ret': [], 'cbsaw': []}
+    if pre is not None:
+        p['ret'] = list(range(pre['selfSeq'] + 1, st['selfSeq'] + 1))
+        if st['missed'] == 1:
+            saw = dict(st['local'])
+            saw['self'] = pre['selfSeq']
+            p['cbsaw'] = [saw]
+    return p
 
 
-C18_FIELDS = ('local', 'out', 'missed', 'seq')      # what the property names
+C18_FIELDS = ('local', 'out', 'missed', 'seq', 'ret', 'cbsaw')      # what the property names
 SYNC_FIELDS = ('state', 'timer')                     # what keeps spec and instance in step
 
 
@@ -192,7 +210,7 @@ def expected_init(nodes, init, t0):
     """projection of a fresh, started instance (Svs!InitWith)"""
     local = {n: 0 for n in nodes}
     local[nodes[0]] = init
-    return {'local': local, 'out': [], 'missed': 0, 'state': 'Steady', 'timer': t0, 'seq': init}
+    return {'local': local, 'out': [], 'missed': 0, 'state': 'Steady', 'timer': t0, 'seq': init, 'ret': [], 'cbsaw': []}
 
 
 class PairRun:
@@ -203,14 +221,16 @@ class PairRun:
                     loop, application and face with main; its timers never fire; events interleave
       live = False  first is an earlier instance of the same group that was stopped before main starts"""
 
-    def __init__(self, nodes, sup, sync, rstep, live, first_cfg, main_cfg):
+    def __init__(self, nodes, sup, sync, rstep, live, first_cfg, main_cfg, peer=False):
         self.nodes, self.sup, self.sync, self.rstep, self.live = nodes, sup, sync, rstep, live
         self.first_cfg, self.main_cfg = first_cfg, main_cfg
         self.base = int(round(sync * 0.9))
-        self.first = self.main = None
+        self.first = self.main = self.peer = None
+        self.with_peer = peer
         self.schedule = []
         self.main_after = None
-        self.recs = {'first': {'cfg': first_cfg, 'ev': []}, 'main': {'cfg': main_cfg, 'ev': []}}
+        self.recs = {'first': {'cfg': first_cfg, 'ev': []}, 'main': {'cfg': main_cfg, 'ev': []},
+                     'peer': {'cfg': {'init': 0, 't0': svskit.QUIET_TIMER}, 'ev': []}}
         self.init_diff = None
         self.bg = []
         if first_cfg is not None:
@@ -233,7 +253,22 @@ class PairRun:
         d = diff(obs, expected_init(self.nodes, cfg['init'], cfg['t0']), C18_FIELDS + SYNC_FIELDS)
         if d:
             self.init_diff = (d, obs)
+        if self.with_peer:
+            # a peer in the group of `main` (own application and face, same loop): loop-back of main's Interests
+            self.peer = Scenario(self.nodes + ['a'], rstep=self.rstep, world=svskit.PEER, quiet=True,
+                                 host=self.main, own_app=True)
+            self.peer.post()
         return obs
+
+    def loop_back(self):
+        """every sync Interest `main` emitted in its last step is handed, as it is on the wire, to the peer: for
+        the peer that is RecvSV of exactly the vector main announced (main itself is node "a" there)"""
+        for wire, vec in self.main.last_wires:
+            if any(n not in self.nodes for n in vec):
+                continue                                   # foreign entries: main's own execution is rejected already
+            p = {'k': 'sv', 'es': [{'id': 'a' if n == self.nodes[0] else n, 'seq': v} for n, v in vec.items()]}
+            post = self.peer.recv_wire(wire)
+            self.recs['peer']['ev'].append({'a': 'RecvSV', 'p': p, 'j': 0, 'r': 0, 'post': post})
 
     def step(self, who, ev):
         sc = self.first if who == 'first' else self.main
@@ -244,20 +279,22 @@ class PairRun:
         self.schedule.append([who, dict(ev)])
         ev['post'] = post
         self.recs[who]['ev'].append(ev)
+        if who == 'main' and self.peer is not None and post['out']:
+            self.loop_back()
         return post
 
     def close(self):
-        for sc in (self.main, self.first):          # the guest first, the host last
+        for sc in (self.peer, self.main, self.first):          # guests first, the host last
             if sc is not None:
                 try:
                     self.bg += sc.errors()
                 finally:
                     sc.close()
-        self.main = self.first = None
+        self.main = self.first = self.peer = None
 
     def obj(self, which, at):
         return {'kind': 'pair', 'nodes': self.nodes, 'sup': self.sup, 'sync': self.sync, 'rstep': self.rstep,
-                'live': self.live, 'first_cfg': self.first_cfg, 'main_cfg': self.main_cfg,
+                'live': self.live, 'peer': self.with_peer, 'first_cfg': self.first_cfg, 'main_cfg': self.main_cfg,
                 'main_after': self.main_after, 'schedule': self.schedule, 'which': which, 'at': at}
 
     def report_init(self, ctx):
@@ -387,7 +424,7 @@ class Cover:
                 rec['post'] = obs
                 evs.append(rec)
                 exact = [(s, k) for (s, k) in cands
-                         if not diff(obs, proj_state(g.state[g.edges[s][k][2]]), C18_FIELDS + SYNC_FIELDS)]
+                         if not diff(obs, proj_state(g.state[g.edges[s][k][2]], g.state[s]), C18_FIELDS + SYNC_FIELDS)]
                 if not exact:
                     # no successor of the graph explains the observation: let the open specification decide.
                     # Edges of this stimulus that were taken before are not reliable ways to travel any more
@@ -500,7 +537,7 @@ def _validate(ctx, recs, idx, nodes, dev, name, maxseq, env=None, count=True):
     return r, {int(a): int(b) for a, b in rejected}
 
 
-def judge(ctx, recs, nodes, sup, sync, rstep, name, maxseq=24, report=True, objs=None):
+def judge(ctx, recs, nodes, sup, sync, rstep, name, maxseq=70000, report=True, objs=None):
     """Validate recorded executions with SvsTrace (Mode open).
     Pass 1, deviations off: an execution that is accepted is a behaviour of the specification.
     Pass 2, only for the rest, deviations on: the first event no specification step explains is
@@ -553,7 +590,7 @@ def judge(ctx, recs, nodes, sup, sync, rstep, name, maxseq=24, report=True, objs
             if dropped > 0:
                 ctx.note('%s: %d further rejected executions not diagnosed individually' % (name, dropped))
             fields = {}
-            for fld in ('out', 'missed', 'local', 'state', 'timer', 'seq'):
+            for fld in ('out', 'missed', 'local', 'state', 'timer', 'seq', 'ret', 'cbsaw'):
                 _, rej3 = _validate(ctx, recs, unexplained, nodes, ('aggLocal', 'noSeq'), name + '-diag', maxseq,
                                     env={'SVS_RELAX': fld}, count=False)
                 for n, (i, l) in enumerate(unexplained):
@@ -590,11 +627,12 @@ def judge(ctx, recs, nodes, sup, sync, rstep, name, maxseq=24, report=True, objs
 MAXSEQ_C = 20
 
 
-def random_packet(rng, nodes, local, selfseq):
+def random_packet(rng, nodes, local, selfseq, base=0):
+    top = base + MAXSEQ_C
     me = nodes[0]
     x = rng.random()
     if x < 0.04:
-        return {'k': rng.choice(['empty', 'garbage', 'nowrapper', 'badname', 'unsigned']), 'es': []}
+        return {'k': rng.choice(['empty', 'garbage', 'nowrapper', 'badname', 'unsigned', 'seqlen0', 'seqlen3']), 'es': []}
     ids = [n for n in nodes if rng.random() < rng.choice([0.3, 0.6, 1.0])] or [rng.choice(nodes)]
     style = rng.choice(['newer', 'older', 'mixed', 'mixed', 'equal', 'random', 'restarted'])
     es = []
@@ -611,31 +649,32 @@ def random_packet(rng, nodes, local, selfseq):
         elif style == 'mixed':
             s = max(0, cur + rng.randint(-2, 2))
         else:
-            s = rng.randint(0, MAXSEQ_C)
+            s = rng.randint(base, top)
         if n == me:
             s = min(s, selfseq)
-        es.append({'id': n, 'seq': min(s, MAXSEQ_C)})
+        es.append({'id': n, 'seq': min(s, top)})
     if x < 0.12:                                   # over-claiming
         es = [e for e in es if e['id'] != me] + [{'id': me, 'seq': selfseq + rng.randint(1, 2)}]
     elif x < 0.18:                                 # entry without node id
         es.insert(rng.randrange(len(es) + 1), {'id': rng.choice([NOID, ROOTID]),
-                                               'seq': rng.choice([NOSEQ, rng.randint(0, MAXSEQ_C)])})
+                                               'seq': rng.choice([NOSEQ, rng.randint(0, top)])})
     elif x < 0.24 and es:                          # entry without sequence number
         es[rng.randrange(len(es))]['seq'] = NOSEQ
     rng.shuffle(es)
     return {'k': 'sv', 'es': es}
 
 
-def random_event(rng, nodes, cur, njit, busy, timed=True):
+def random_event(rng, nodes, cur, njit, busy, timed=True, base=0):
     x = rng.random()
     j = rng.randrange(njit)
+    top = base + MAXSEQ_C
     if x < busy or (not timed and x < 0.75):
-        return {'a': 'RecvSV', 'p': random_packet(rng, nodes, cur['local'], cur['seq']), 'j': j,
-                'r': rng.choice([0, 0, 0, 1, 1, 2]) if cur['seq'] + 2 <= MAXSEQ_C else 0}
-    if (x < busy + 0.08 or not timed) and cur['seq'] < MAXSEQ_C:
-        return {'a': 'Publish', 'n': min(rng.choice([1, 1, 1, 2, 3]), MAXSEQ_C - cur['seq']), 'j': j}
+        return {'a': 'RecvSV', 'p': random_packet(rng, nodes, cur['local'], cur['seq'], base), 'j': j,
+                'r': rng.choice([0, 0, 0, 1, 1, 2]) if cur['seq'] + 2 <= top else 0}
+    if (x < busy + 0.08 or not timed) and cur['seq'] < top:
+        return {'a': 'Publish', 'n': min(rng.choice([1, 1, 1, 2, 3]), top - cur['seq']), 'j': j}
     if not timed:
-        return {'a': 'RecvSV', 'p': random_packet(rng, nodes, cur['local'], cur['seq']), 'j': j, 'r': 0}
+        return {'a': 'RecvSV', 'p': random_packet(rng, nodes, cur['local'], cur['seq'], base), 'j': j, 'r': 0}
     if cur['timer'] == 0:
         return {'a': 'TimerFire', 'j': j}
     t = cur['timer']
@@ -643,22 +682,25 @@ def random_event(rng, nodes, cur, njit, busy, timed=True):
 
 
 def record_random(rng, nodes, n_events, sup, sync, rstep, njit):
-    """one process, two sync groups: the sibling instance gets state first, then the instance under the
-    random history is created; sibling events (vectors heard, publications) are interleaved"""
-    first_cfg = {'init': rng.choice([0, 2, 5]), 't0': svskit.QUIET_TIMER}
-    main_cfg = {'init': rng.choice([0, 0, 0, rng.randint(1, 5)]), 't0': int(round(sync * 0.9)) + rng.randrange(njit)}
-    pr = PairRun(nodes, sup, sync, rstep, True, first_cfg, main_cfg)
+    """one process, three instances: a sibling of another sync group gets state first, then the instance
+    under the random history is created, then a peer of its group; sibling events (vectors heard,
+    publications) are interleaved, and every sync Interest the instance emits is fed to the peer.
+    Sequence numbers start at a base on either side of the 1 / 2 / 4 byte SeqNo encodings."""
+    base = rng.choice([0, 0, 250, 65530])
+    first_cfg = {'init': base + rng.choice([0, 2, 5]), 't0': svskit.QUIET_TIMER}
+    main_cfg = {'init': base + rng.choice([0, 0, 0, rng.randint(1, 5)]), 't0': int(round(sync * 0.9)) + rng.randrange(njit)}
+    pr = PairRun(nodes, sup, sync, rstep, True, first_cfg, main_cfg, peer=True)
     try:
         sib = pr.first.post()
         for _ in range(rng.randint(2, 4)):
-            sib = pr.step('first', random_event(rng, nodes, sib, njit, 0.0, timed=False))
+            sib = pr.step('first', random_event(rng, nodes, sib, njit, 0.0, timed=False, base=base))
         cur = pr.start_main()
         busy = rng.choice([0.35, 0.5, 0.7])        # how chatty the neighbours are
         while len(pr.recs['main']['ev']) < n_events:
             if rng.random() < 0.06:
-                sib = pr.step('first', random_event(rng, nodes, sib, njit, 0.0, timed=False))
+                sib = pr.step('first', random_event(rng, nodes, sib, njit, 0.0, timed=False, base=base))
             else:
-                cur = pr.step('main', random_event(rng, nodes, cur, njit, busy))
+                cur = pr.step('main', random_event(rng, nodes, cur, njit, busy, base=base))
     finally:
         pr.close()
     return pr
@@ -668,12 +710,15 @@ def stage_c(ctx):
     n = ctx.pick(60, 1200)
     sup, sync, rstep, njit = 8, 40, 8192, 8
     recs, bgs, objs, n_init = [], [], [], 0
+    precs, pobjs = [], []
     for i in range(n):
         pr = record_random(ctx.rng, NODES5, ctx.rng.randint(90, 110), sup, sync, rstep, njit)
         n_init += bool(pr.report_init(ctx))
         for which in ('main', 'first'):
             recs.append(pr.recs[which])
             objs.append(lambda at, pr=pr, which=which: pr.obj(which, at))
+        precs.append(pr.recs['peer'])
+        pobjs.append(lambda at, pr=pr: pr.obj('peer', at))
         bgs += pr.bg
         rec = pr.recs['main']
         if nontrivial(rec['ev']):
@@ -689,10 +734,18 @@ def stage_c(ctx):
         if total['rej'] >= MAX_DIAG and b + batch < len(recs):
             ctx.note('C: %d executions rejected so far; the remaining %d are not judged' % (total['rej'], len(recs) - b - batch))
             break
-    ctx.traces += len(recs)
-    ctx.evaluations += sum(len(r['ev']) for r in recs)
+    if total['rej'] < MAX_DIAG:
+        for b in range(0, len(precs), 4 * batch):
+            fnd = judge(ctx, precs[b:b + 4 * batch], NODES5 + ['a'], sup, sync, rstep, 'c18-c-peer', objs=pobjs[b:b + 4 * batch])
+            total['dev'] += sum(1 for f in fnd if f['dev'])
+            total['rej'] += LAST_JUDGE['unexplained']
+    ctx.extra['C_loopback'] = {'peers': len(precs), 'interests_fed_back': sum(len(r['ev']) for r in precs)}
+    ctx.traces += len(recs) + len(precs)
+    ctx.evaluations += sum(len(r['ev']) for r in recs) + sum(len(r['ev']) for r in precs)
     if n_init:
         ctx.note('C: %d fresh instances did not start in the initial state' % n_init)
+    ctx.note('C: %d peers were fed %d sync Interests emitted by the instance under test' % (
+        len(precs), sum(len(r['ev']) for r in precs)))
     ctx.note('C: %d executions (two instances per process), %d events; steps explained only by a named deviation: %d; rejected executions: %d' % (
         len(recs), sum(len(r['ev']) for r in recs), total['dev'], total['rej']))
     if bgs:
@@ -708,7 +761,10 @@ def run(ctx):
     ctx.assumptions = ['appv2 delivers a validated sync Interest to the attached handler (C04/C05)',
                        'virtual-time loop is faithful to asyncio timer semantics; a packet and an expiry at the same '
                        'instant are ordered packet-first or expiry-first, never inside one loop iteration',
-                       'node ids within one received vector are distinct']
+                       'node ids within one received vector are distinct',
+                       'no stop()/start() of an instance and no send failure (face down) during a history: outside the '
+                       'quantifier of C18 (audit S9, S10: proposed_fixes/C18-stop-cancels-timer-task.diff, '
+                       'C18-send-failure-keeps-timer-running.diff)']
     try:
         if 'A' in ctx.stages:
             stage_a(ctx)
@@ -753,7 +809,8 @@ def replay(ctx, path):
 
 
 def replay_pair(ctx, obj):
-    pr = PairRun(obj['nodes'], obj['sup'], obj['sync'], obj['rstep'], obj['live'], obj['first_cfg'], obj['main_cfg'])
+    pr = PairRun(obj['nodes'], obj['sup'], obj['sync'], obj['rstep'], obj['live'], obj['first_cfg'], obj['main_cfg'],
+                 peer=obj.get('peer', False))
     try:
         for k, (who, ev) in enumerate(obj['schedule'] + [['end', None]]):
             if k == obj['main_after']:
@@ -777,6 +834,14 @@ def replay_pair(ctx, obj):
     for f in fnd:
         print('REPRODUCED in the execution of `%s` at event %d: %s\n  %s' % (names[f['trace']], f['at'], f['sig'], f['what']))
     found += len(fnd)
+    if pr.recs['peer']['ev']:
+        for e in pr.recs['peer']['ev']:
+            print('peer  RecvSV    %s -> %s' % (json.dumps(e['p']), json.dumps(e['post'])))
+        fnd = judge(ctx, [pr.recs['peer']], obj['nodes'] + ['a'], obj['sup'], obj['sync'], obj['rstep'],
+                    'c18-replay-peer', report=False)
+        for f in fnd:
+            print('REPRODUCED in the execution of `peer` at event %d: %s\n  %s' % (f['at'], f['sig'], f['what']))
+        found += len(fnd)
     if not found:
         print('not reproduced: both re-executed histories are behaviours of Svs')
     return 1 if found else 0
